@@ -112,7 +112,8 @@ def run(ctx):
     dist = {"packages": 0, "images": 0, "converters": {}, "content_type_sources": {"override": 0, "default_or_builtin": 0, "none": 0}, "linked": 0}
     with A.Workdir() as wd:
         for i in range(n):
-            g = gen_xml.XGen(rng, textboxes=False, notes=False, comments=False, anomalies=0.3 if i % 2 else 0.0, deleted=False, fields=False)
+            g = gen_xml.XGen(rng, textboxes=False, notes=False, comments=False, anomalies=0.3 if i % 2 else 0.0, deleted=False, fields=False,
+                                 type_aliases=0.3 if i % 3 == 0 else 0.0)
             pkg = g.package(rng.randint(1, 4))
             if i % 5 == 0:
                 # byte payloads: every byte value, empty, large
